@@ -216,7 +216,7 @@ def snippet(case):
 LIB_DEFAULTS = None        # filled from the repository's constants at the start of check()
 
 
-def oracle(case, scales, note_names):
+def oracle(case, scales, note_names, _probe=False):
     """Expected observation of a one-event case by the documentation.
     Returns None when the documentation does not determine the result (outside the documented domain),
     ("reject",) when the dictionary must be rejected with an error and nothing played,
@@ -249,7 +249,13 @@ def oracle(case, scales, note_names):
     try:
         active = chain("active")
         if active is None or active is False or active == 0:
-            return ("calls", [], ())
+            # an inactive event plays nothing - provided the same dictionary, were it active, is one the documentation
+            # determines (a malformed dictionary may raise while being resolved, active or not: not judged)
+            c2 = dict(case)
+            c2["events"] = [[kv for kv in case["events"][0] if kv[0] != "active"] + [["active", True]]]
+            c2["defaults"] = [kv for kv in case["defaults"] if kv[0] != "active"]
+            probe = None if _probe else oracle(c2, scales, note_names, _probe=True)
+            return ("calls", [], ()) if (probe is not None and probe[0] == "calls") else None
         if active is not True and active != 1:
             return None
         if etype == "patch":
